@@ -10,6 +10,7 @@
 -/
 import YashModel.Job.Steps
 import YashModel.Job.BuiltinSteps
+import YashModel.Job.ExtSteps
 namespace YashModel.Job
 
 /-- The statement of the property on one table, in the existential form of the property text and
@@ -45,7 +46,8 @@ theorem inv_init : Inv JobList.empty := by
   · exact ⟨by simp [JobList.empty], by simp [JobList.empty]⟩
 
 /-- ★ every operation preserves it — the `JobList` API calls, and the built-ins `jobs`, `bg`, `fg`,
-    `wait` and the asynchronous command `cmd &` as wholes -/
+    `wait` (also while the system reports state changes) and the asynchronous command `cmd &` as wholes,
+    `Env::update_all_subshell_statuses` and the prompt report of an interactive shell -/
 theorem inv_step (s : JobList) (op : Op) (h : Inv s) (hpre : opPre s op = true) : Inv (step s op) := by
   cases op with
   | insert pid st => exact insert_inv s _ h hpre
@@ -77,6 +79,11 @@ theorem inv_step (s : JobList) (op : Op) (h : Inv s) (hpre : opPre s op = true) 
   | jobsClosed args => exact jobsClosed_inv s args h
   | ampFail => exact h
   | reportLast => exact reportLast_inv s h
+  | sync evs => exact updateAll_inv s evs h
+  | prompt m i => exact promptReport_inv s m i h
+  | waitEv evs args => exact waitBuiltinEv_inv s evs args h
+  | kres arg => exact h
+  | bang => exact h
 
 /-- ★ hence it holds after every history — any length, any number of jobs -/
 theorem inv_reachable (ops : List Op) (s : JobList) (h : Inv s) (hp : PathPre s ops) : Inv (run s ops) := by
@@ -270,6 +277,11 @@ theorem index_stable (s : JobList) (op : Op) (h : Inv s) (hpre : opPre s op = tr
   | jobsClosed args => exact stable_of_sub _ _ h (jobsClosed_sub s args)
   | ampFail => exact stable_of_sub _ _ h (Sub.refl s)
   | reportLast => exact stable_of_sub _ _ h (reportLast_sub s)
+  | sync evs => exact stable_of_sub _ _ h (updateAll_sub s evs)
+  | prompt m i => exact stable_of_sub _ _ h (promptReport_sub s m i)
+  | waitEv evs args => exact stable_of_sub _ _ h (waitBuiltinEv_sub s evs args)
+  | kres arg => exact stable_of_sub _ _ h (Sub.refl s)
+  | bang => exact stable_of_sub _ _ h (Sub.refl s)
 
 /-- ★ `%%`/`%+` designate the current job, `%-` the previous job, `%n` the job at index `n-1`;
     on a consistent table `%%` succeeds iff the table is non-empty. -/
@@ -328,6 +340,11 @@ theorem last_async (s : JobList) (op : Op) :
   | jobsClosed args => exact jobsClosed_lastAsync s args
   | ampFail => rfl
   | reportLast => exact reportLast_lastAsync s
+  | sync evs => exact updateAll_lastAsync s evs
+  | prompt m i => exact promptReport_lastAsync s m i
+  | waitEv evs args => exact waitBuiltinEv_lastAsync s evs args
+  | kres arg => rfl
+  | bang => rfl
 
 /-! ### the precondition is needed and satisfiable; hypotheses are met by non-trivial histories -/
 
